@@ -20,3 +20,8 @@ type (
 )
 
 func NewCond(l Locker) *Cond { return sync.NewCond(l) }
+
+// The function-valued helpers of package sync do not block: the real ones.
+func OnceFunc(f func()) func()                                 { return sync.OnceFunc(f) }
+func OnceValue[T any](f func() T) func() T                     { return sync.OnceValue(f) }
+func OnceValues[T1, T2 any](f func() (T1, T2)) func() (T1, T2) { return sync.OnceValues(f) }
